@@ -54,6 +54,9 @@ def run(ctx):
     n = S.rule_consumers(ctx, 'R06.6')
     n += M.rule_voting_threshold(ctx, 'R06.6')
     ctx.floor('R06.6', n, 8)
+    import locklib
+    ctx.rule('R06.7', 'submitting never blocks: channels that carry commands to store workers / voting threads are unbounded')
+    ctx.floor('R06.7', locklib.rule_command_channels(ctx, 'R06.7'), 3)
 
 
 def sent_agg(body, eb, c, suffix):
